@@ -1,0 +1,29 @@
+//! Verification hooks (only compiled with `--cfg octo_squirrel_verif`): public re-exports of the
+//! client-side codecs and of the local-handshake entry points, which live in private modules.
+//! Nothing here changes behaviour; with the cfg off this file is not part of the crate.
+#![allow(unused_imports)]
+pub use super::config::SslConfig;
+pub use super::handshake::Proxy;
+pub use super::handshake::get_request_addr;
+pub use super::handshake::verif_recognize_http as recognize_http;
+pub use super::template::try_transfer_tcp;
+
+pub mod shadowsocks {
+    pub use super::super::shadowsocks::tcp::ClientContext;
+    pub use super::super::shadowsocks::tcp::PayloadCodec;
+    pub use super::super::shadowsocks::tcp::new_payload_codec;
+    pub use super::super::shadowsocks::udp::Client as UdpClient;
+    pub use super::super::shadowsocks::udp::DatagramPacketCodec;
+}
+
+pub mod vmess {
+    pub use super::super::vmess::ClientAEADCodec;
+    pub use super::super::vmess::tcp::new_codec as new_tcp_codec;
+    pub use super::super::vmess::udp::new_codec as new_udp_codec;
+}
+
+pub mod trojan {
+    pub use super::super::trojan::tcp::ClientCodec as TcpClientCodec;
+    pub use super::super::trojan::tcp::new_codec as new_tcp_codec;
+    pub use super::super::trojan::udp::ClientCodec as UdpClientCodec;
+}
